@@ -14,7 +14,11 @@ import (
 // (fileInfo.funcNames, which find.go builds while skipping derived.gen.go) or from constants. Anything taken from the
 // type-checked package as a whole (Scope, Defs, Uses, Files) includes the functions of the previous derived.gen.go, so the
 // fresh names chosen would depend on the previous output.
-func g14ReservedProvenance(r *Repo, rep *Report) {
+func g14ReservedProvenance(c *Ctx) {
+	r, rep := c.Repo, c.Rep
+	// with the previous output hidden from the first pass (G22) the type-checked package holds nothing but the user's files and,
+	// after a reload, what this very run has generated: names taken from it are a function of the current sources
+	previousOutputHidden := staleHidden(c).goFiles
 	fi := r.lookup("derive.newPackage")
 	ntm := r.lookup("derive.newTypesMap")
 	if fi == nil || ntm == nil {
@@ -81,6 +85,9 @@ func g14ReservedProvenance(r *Repo, rep *Report) {
 			})
 		}
 		switch {
+		case whole != "" && previousOutputHidden:
+			rep.pass("G14")
+			rep.sample(map[string]string{"rule": "G14 reserved names from the whole package: harmless while the previous output is hidden (G22)", "site": r.pos(store.Pos()), "source": whole})
 		case whole != "":
 			rep.fail(Finding{Rule: "G14", Key: "G14|reserved|whole-package-source", Where: []string{r.pos(store.Pos())},
 				Msg: fmt.Sprintf("newPackage adds names taken from %s to the reserved set: the type-checked package includes the functions of the previous derived.gen.go, so fresh helper names would avoid the names of the previous output and change from run to run", whole)})
